@@ -16,9 +16,19 @@ OTHER = {".pt": ".x", ".x": ".pt", "_x.pt": ".x"}
 MAX_EXECS = 200  # cap per explored command (4 chunks = 24 orders is the largest enumerated)
 
 
-def tok2id(seed):
+BIG_IDS = {"a": 2 ** 31 - 1, "b": 2 ** 31 + 1, "c": 2 ** 24 + 1}  # around the int32 limit / above float32's exact range
+
+
+def tok2id(seed, big=False):
     """don't-care part: which distinct ids the three tokens get"""
+    if big:
+        return dict(BIG_IDS)
     return {"a": 1 + seed % 3, "b": 5 + seed % 2, "c": 0}
+
+
+def strip(name, prefix, suffix):
+    """utterance id of a file name (the suffix may be empty)"""
+    return name[len(prefix): len(name) - len(suffix)]
 
 
 def strings(maxlen, alphabet=("a", "b", "c")):
@@ -39,6 +49,8 @@ def io_flags(prefix, suffix):
 
 def distractor_names(prefix, suffix):
     """names that must NOT be selected by (prefix, suffix)"""
+    if suffix == "":  # every name ends with the empty suffix: only the prefix can exclude a file
+        return ["zz"] if prefix else []
     names = ["zz" + OTHER[suffix]]
     if prefix:
         names += ["zz" + suffix, prefix + "zz" + OTHER[suffix]]
@@ -54,6 +66,8 @@ class Env:
     def __init__(self, ctx, root, tier, seed):
         self.ctx, self.root, self.tier, self.seed = ctx, root, tier, seed
         self.case, self.cid, self.dir = None, None, None
+        self.tag = None  # set by wrapping families (global-state runs): keeps their executions distinct
+        self.extra_sig, self.case_override = {}, None
 
     def begin(self, case):
         self.case = case
@@ -66,13 +80,13 @@ class Env:
 
     def ev(self, api, sched="w0", nontrivial=True):
         """one command execution evaluated against oracle or baseline"""
-        key = h64([api, self.cid, sched])
+        key = h64([api, self.cid, sched] + ([self.tag] if self.tag else []))
         self.ctx.key(key, nontrivial)
         self.ctx.state(key)
         self.ctx.transitions += 1
 
     def viol(self, sig, detail):
-        self.ctx.violation(sig, self.case, detail)
+        self.ctx.violation(dict(sig, **self.extra_sig), self.case_override or self.case, detail)
 
     def raises(self, api, res, **flags):
         sig = {"api": api, "symptom": "raises" if res["exc"] is not None else "error-exit",
